@@ -15,6 +15,9 @@ import (
 // engine "e2e": a real exporting process connected to a real collecting process (property C01)
 //   e2e open <tcp|udp|tls|dtls> <4|6> <strict|keep|drop> <dom>  -> ok | unsupported | err <why>
 //   e2e send <path> <t|d> <setid> <tid@elems;...>               -> sent <n> <delivered message | none> <timeok|timebad> | err
+//   e2e burst <path> <tid> <recs_1> <recs_2> ... <recs_k>      -> burst <n_1>,...,<n_k> <delivered message> | <delivered message> | ... (or `none`)
+//        k data sets for template <tid>, handed to SendSet back-to-back while the application does NOT read GetMsgChan();
+//        only then are the deliveries collected (until k arrived or 3 s passed since the last arrival), in arrival order
 //   e2e close                                                  -> ok
 func init() { engines["e2e"] = engE2E }
 
@@ -23,6 +26,9 @@ type e2eSession struct {
 	ep   *exporter.ExportingProcess
 	msgs chan *entities.Message
 	done chan struct{}
+	// a burst stops the goroutine which reads GetMsgChan() for the time of its sends (an application which is
+	// busy elsewhere): it hands over a channel and the reader waits until that channel is closed
+	pause chan chan struct{}
 	// the application's recycled set (paths "0r" / "1r" / "2r": ResetSet + PrepareSet per send)
 	reused entities.Set
 	// every message delivered in this session with its rendering at delivery time: a consumer may keep
@@ -102,13 +108,19 @@ func engE2E(a []string) string {
 		if addr == nil {
 			return "err collector-address"
 		}
-		s := &e2eSession{cp: cp, msgs: make(chan *entities.Message, 64), done: make(chan struct{})}
+		s := &e2eSession{cp: cp, msgs: make(chan *entities.Message, 64), done: make(chan struct{}), pause: make(chan chan struct{})}
 		go func() {
 			ch := cp.GetMsgChan()
 			for {
 				select {
 				case m := <-ch:
 					s.msgs <- m
+				case resume := <-s.pause:
+					select {
+					case <-resume:
+					case <-s.done:
+						return
+					}
 				case <-s.done:
 					return
 				}
@@ -193,22 +205,144 @@ func engE2E(a []string) string {
 		}
 		select {
 		case m := <-e2e.msgs:
-			tk := "timeok"
-			if int64(m.GetExportTime()) < t0 || int64(m.GetExportTime()) > t1 {
-				tk = "timebad"
-			}
-			m.SetExportTime(0)
-			addrOK := "addrok"
-			if ip := net.ParseIP(m.GetExportAddress()); ip == nil || !ip.IsLoopback() {
-				addrOK = "addrbad:" + m.GetExportAddress()
-			}
-			tok := msgToken(m)
-			e2e.kept = append(e2e.kept, m)
-			e2e.keptToks = append(e2e.keptToks, tok)
-			return fmt.Sprintf("sent %d %s %s %s", n, strings.TrimPrefix(tok, "ok "), tk, addrOK)
+			return fmt.Sprintf("sent %d %s", n, e2e.render(m, t0, t1))
 		case <-time.After(3 * time.Second):
 			return fmt.Sprintf("sent %d none", n)
 		}
+	case "burst":
+		// e2e burst <path> <tid> <recs_1> ... <recs_k>
+		if len(a) < 4 || e2e == nil {
+			return "bad-op"
+		}
+		path := a[1]
+		reuse := strings.HasSuffix(path, "r")
+		path = strings.TrimSuffix(path, "r")
+		setid, err := strconv.ParseUint(a[2], 10, 16)
+		if err != nil {
+			return "bad-op"
+		}
+		type rec struct {
+			tid   uint16
+			elems []entities.InfoElementWithValue
+		}
+		var descs [][]rec
+		for _, rs := range a[3:] {
+			var d []rec
+			for _, rt := range strings.Split(rs, ";") {
+				p := strings.SplitN(rt, "@", 2)
+				if len(p) != 2 {
+					return "bad-op"
+				}
+				tid, err := strconv.ParseUint(p[0], 10, 16)
+				if err != nil {
+					return "bad-op"
+				}
+				elems, err := parseElems(p[1])
+				if err != nil {
+					return "bad-op"
+				}
+				d = append(d, rec{uint16(tid), elems})
+			}
+			descs = append(descs, d)
+		}
+		build := func(set entities.Set, d []rec) bool {
+			if err := set.PrepareSet(entities.Data, uint16(setid)); err != nil {
+				return false
+			}
+			for _, r := range d {
+				if err := addByPath(set, path, 0, r.tid, r.elems); err != nil {
+					return false
+				}
+			}
+			return true
+		}
+		// without the recycled set all k sets exist before the first SendSet; with it (paths "0r"/"1r"/"2r") the
+		// one set is reset and filled again right after the SendSet which took its previous content returned
+		sets := make([]entities.Set, len(descs))
+		if reuse {
+			if e2e.reused == nil {
+				e2e.reused = entities.NewSet(false)
+			}
+		} else {
+			for i, d := range descs {
+				sets[i] = entities.NewSet(false)
+				if !build(sets[i], d) {
+					return "builderr"
+				}
+			}
+		}
+		for len(e2e.msgs) > 0 {
+			<-e2e.msgs
+		}
+		// from here on nobody reads GetMsgChan() until the last SendSet has returned
+		resume := make(chan struct{})
+		e2e.pause <- resume
+		ns := make([]string, len(descs))
+		t0 := time.Now().Unix()
+		for i, d := range descs {
+			set := sets[i]
+			if reuse {
+				e2e.reused.ResetSet()
+				set = e2e.reused
+				if !build(set, d) {
+					close(resume)
+					return "builderr"
+				}
+			}
+			n, err := e2e.ep.SendSet(set)
+			if err != nil {
+				ns[i] = "err"
+			} else {
+				ns[i] = strconv.Itoa(n)
+			}
+		}
+		t1 := time.Now().Unix()
+		close(resume)
+		// the application takes what arrives and looks at it only when nothing more is to come
+		var got []*entities.Message
+	collect:
+		for len(got) < len(descs) {
+			select {
+			case m := <-e2e.msgs:
+				got = append(got, m)
+			case <-time.After(3 * time.Second):
+				break collect
+			}
+		}
+		if len(got) == len(descs) {
+			// anything beyond the k messages which were sent
+			select {
+			case m := <-e2e.msgs:
+				got = append(got, m)
+			case <-time.After(50 * time.Millisecond):
+			}
+		}
+		var out []string
+		for _, m := range got {
+			out = append(out, e2e.render(m, t0, t1))
+		}
+		if len(out) == 0 {
+			out = []string{"none"}
+		}
+		return fmt.Sprintf("burst %s %s", strings.Join(ns, ","), strings.Join(out, " | "))
 	}
 	return "bad-op"
+}
+
+// render is what a delivery looks like to the application: the message (export time judged against the
+// interval of the send(s) and then blanked), the exporter's address; the message is kept until `close`
+func (s *e2eSession) render(m *entities.Message, t0, t1 int64) string {
+	tk := "timeok"
+	if int64(m.GetExportTime()) < t0 || int64(m.GetExportTime()) > t1 {
+		tk = "timebad"
+	}
+	m.SetExportTime(0)
+	addrOK := "addrok"
+	if ip := net.ParseIP(m.GetExportAddress()); ip == nil || !ip.IsLoopback() {
+		addrOK = "addrbad:" + m.GetExportAddress()
+	}
+	tok := msgToken(m)
+	s.kept = append(s.kept, m)
+	s.keptToks = append(s.keptToks, tok)
+	return fmt.Sprintf("%s %s %s", strings.TrimPrefix(tok, "ok "), tk, addrOK)
 }
